@@ -10,7 +10,32 @@ TRUST = ("Trusted base: the simulator runtime and its models of sync, sync/atomi
          "map ranges), the independent reference codec/models used as oracles. Sampling, not proof: a clean batch is evidence.")
 
 # id -> (level, technique, text, design_ref)   for claimed checks
+B = "deterministic simulation: real broker on a simulated transport, seeded schedules and faults, "
 CLAIMED = {
+ "C01": ("exploration", B + "reference matcher with must/may windows over wire stamps",
+         "Seeded search over client histories (connect/subscribe/unsubscribe/publish/disconnect, in-process subscribers), inputs (filters, topics, QoS, payload sizes up to the packet limit) and interleavings; every delivery is attributed to one publish and judged against a reference matcher; obligations only where the subscription's certain window covers the publish's acceptance window.", "§6 C01"),
+ "C02": ("exploration", B + "ack-stream and hand-over history check (broker role); client role in the client world",
+         "Scripted sender interleaving PUBLISH/DUP/PUBREL/duplicate PUBREL over several identifiers with ring-wrapping traffic; one ack per packet with the same identifier, hand-over count between certain and possible, never before the releasing PUBREL, payload byte-identical.", "§6 C02"),
+ "C05": ("fault_enumeration", B + "attacker scripts + enumeration of all truncation points; witness pair must stay exact",
+         "Attackers send garbage/corrupted/truncated/oversized packets before and after CONNECT and vanish while being delivered to; all truncation points of all 14 packet types are enumerated; oracle: no panic reaches the top of a goroutine, the process survives an 8 GiB address space, no well-behaved connection is closed, witness traffic exact.", "§6 C05"),
+ "C07": ("exploration", B + "SUBACK/UNSUBACK stream against the specification table, effect windows",
+         "SUBSCRIBE/UNSUBSCRIBE packets with 1-12 valid/invalid/repeated filters and in/out-of-range QoS under a server maximum of 0-2, probed by a publisher; one ack per request in order with exact return codes, effect judged through the routing oracle.", "§6 C07"),
+ "C08": ("exploration", B + "retained-store model with value-set windows",
+         "Retained/clearing/plain publishes interleaved (and racing) with subscriptions; per SUBSCRIBE and topic the set of values that could be current in the request's window decides which retained copy is required, permitted or forbidden; payload byte-identical, QoS min(stored, granted), retain flag only right after a SUBACK.", "§6 C08"),
+ "C09": ("fault_enumeration", B + "end-cause enumeration per connection, will as an obligatory publish",
+         "Every way a connection can end (DISCONNECT, DISCONNECT behind traffic, FIN, RST, cut inside a packet, keep-alive expiry in virtual time, undecodable packet, left open) crossed with will parameters and session histories; the will of the ending connection's own CONNECT must be published exactly once after every abnormal end and never otherwise.", "§6 C09"),
+ "C10": ("exploration", B + "session-store model for SessionPresent, restored subscriptions through the routing oracle",
+         "Sequences of connect(CleanSession 0/1)/subscribe/unsubscribe/end over several identifiers with a probing publisher; SessionPresent against a model keyed by client identifier; restored subscriptions must deliver after the first answered request; nothing of a clean session survives.", "§6 C10"),
+ "C11": ("fault_enumeration", B + "first-packet enumeration against the MQTT answer table, side-effect probes",
+         "First packets of every type and CONNECT variants (protocol name/level, identifiers, will flags, credentials, reserved flag, truncation) under accepting/rejecting authenticators, followed by further packets; CONNACK code set and closure from the specification text; a witness and a prober check that unaccepted connections had no effect.", "§6 C11"),
+ "C12": ("exploration", B + "in-flight packet-identifier set per connection (broker role); completion history in the client world",
+         "Broker role: several publishers with equal packet identifiers deliver to shared subscribers that acknowledge late or never; unacknowledged PUBLISH packets per connection must carry non-zero distinct identifiers; each PUBREC is answered by PUBREL. Client role: see the client world.", "§6 C12"),
+ "C16": ("fault_enumeration", B + "cause x buffer-condition grid, exact goroutine census at quiescence",
+         "End cause x buffer condition (idle, outgoing ring full, incoming ring full behind a third party, cross-blocked pair) x order of ends; at every quiescence point without stalled open connection exactly one processor/receiver/sender per open connection exists; after all ended no library goroutine; Server.Close and ListenAndServe return.", "§6 C16"),
+ "C17": ("exploration", B + "strict reference parse of every emitted byte, per-publisher sequence order",
+         "Concurrent publishers to shared slow subscribers with packets straddling the ring end; every byte the broker writes on every link must parse strictly; sequence numbers per publisher connection, topic and QoS arrive in order.", "§6 C17"),
+ "C19": ("exploration", B + "virtual-time activity patterns against close deadlines",
+         "Keep-alive values 1-10 s and activity patterns (silent, traffic then silent, pinging/publishing at 0.2-0.95 K, dribbled bytes, reconnect) in virtual time; silent clients are closed by 2K+1 s and their will published; clients whose gaps stay below K are never closed; each PINGREQ gets one PINGRESP.", "§6 C19"),
  "C14": ("exploration", "deterministic simulation: seeded schedules over the real ring buffer, position-dependent stream oracle",
          "Seeded search over producer/consumer operation sequences and over every interleaving point (each sync/atomic operation is a scheduling point); every byte the consumer obtains is compared with a position-dependent stream, peeked bytes are re-verified before commit.", "§6 C14"),
  "C15": ("exploration", "deterministic simulation: seeded schedules + closer tasks, exact parked-task predicate at quiescence",
